@@ -209,7 +209,8 @@ Record item := mkItem {
   i_orig : option (list sval);     (* None: disable_conversion_to_plain() *)
   i_val : T }.
 
-(* DMixed: a programmatically changed detection holding both items and nested detections *)
+(* DMixed: a programmatically changed detection that has no plain form: both items and nested
+   detections, or several AND-linked nested detections *)
 (* DItemsOr: items with item_linking = OR (result of a 1:n field mapping; never produced by loading) *)
 Inductive det := DItems (l : list item) | DSubs (l : list det) | DMixed | DItemsOr (l : list item).
 
